@@ -27,7 +27,9 @@ RULE = ('one run = one focus decoder (run index mod number of decodable names, s
 SHAPE_MEASURE = 'distinct (focus decoder, kinds of context present, fault classes that fired) tuples'
 ASSUMPTIONS = ['in-domain = the enum members the live decoder names (simkd/domains.py, reviewed against the handler sources)',
                'texts are ASCII so that every record is individually valid text even when neighbouring chunks are lost',
-               'an enum ValueError / UnicodeDecodeError is a generator bug (premise rejected, exit 2), never a violation']
+               'an enum ValueError in the fault-free run is a generator bug (premise rejected), and one raised for an END that the losses '
+               'paired with the START of a different call is not judged; any other is a violation: the rejected value was read from a '
+               'record the decoder should not have read']
 
 
 COMPOSITES = ('MACH_vmfault', 'DBG_DYLD_TIMING_LAUNCH_EXECUTABLE', 'PERF_Event')
@@ -149,6 +151,11 @@ def generate(rng, index, tier):
                     if name in worlds.DYLD_STRING_ARG:
                         s2[worlds.DYLD_STRING_ARG[name]] = w['s'][worlds.DYLD_STRING_ARG[name]]
                     focus.insert(len(focus) - 1, {'k': 'sys', 'name': name, 's': s2, 'e': [0, 0, 0, 0], 'in': [], 'noend': True})
+            if focus and focus[-1].get('k') == 'sys' and not focus[-1].get('noend') and rng.chance(0.25):
+                # the call is made again right away (a retry loop): losing the END of the first leaves its window - with
+                # whatever was nested in it - open when the second one starts
+                import copy
+                focus.append(copy.deepcopy(focus[-1]))
             if worlds.catalog()['fam'].get(name) == 'dyld' and rng.chance(0.5):
                 # the handle a dlopen returned is what later dlsym / dlclose calls name; its path may be a bare leaf name
                 h_ = rng.pick([rng.word(), 0x7f0000001000, 1])
@@ -237,6 +244,18 @@ def _feed_all(table, stream):
     return None
 
 
+def _mismatched_pair(variant, i):
+    """Was record i an END that the losses paired with the START of a different call of the same code?"""
+    if not 0 <= i < len(variant) or variant[i]['q'] != 2:
+        return False
+    rec = variant[i]
+    for j in range(i - 1, -1, -1):
+        o = variant[j]
+        if o['id'] == rec['id'] and o['t'] == rec['t'] and o['q'] in (1, 2):
+            return o['q'] == 1 and o['o'].rsplit('/', 1)[0] != rec['o'].rsplit('/', 1)[0]
+    return False
+
+
 def _classify(e):
     # (a UnicodeDecodeError is NOT a premise rejection here: every text-bearing record this check generates is ASCII, so a
     #  decode error can only come from the tool decoding bytes that are not text, e.g. another record's arguments)
@@ -259,6 +278,7 @@ def execute(scn):
     hist = []
     seen = set()
     shapes = set()
+    premise_in_fault_free = [False]
 
     def judge(variant, label, detail):
         r = _feed_all(table, variant)
@@ -266,7 +286,13 @@ def execute(scn):
             return True
         e, i = r
         cls = _classify(e)
+        if cls == 'premise' and label != 'fault-free' and not premise_in_fault_free[0] and not _mismatched_pair(variant, i):
+            # every record is in the decoder's range on its own (the fault-free run shows it) and the decoder was not handed the
+            # START of one call with the END of another: the value it rejects was read from a record it should not have read
+            cls = 'violation'
         if cls == 'premise':
+            if label == 'fault-free':
+                premise_in_fault_free[0] = True
             bump('premise_rejected')
             hist.append([label, 'premise', repr(e)[:80]])
             return True
